@@ -1030,7 +1030,7 @@ def run(ctx):
         elif i == len(gen.KINDS):
             forced = list(gen.KINDS)                         # and all together
         hs.append(gen.history(ctx.rng, forced))
-    hs.append(gen.known_cd_music_history())                  # deterministic reproduction of the known finding
+    hs += gen.known_histories()                              # deterministic reproductions of the listed known findings
     seen_findings = set()
     tags = {}
     stats = dict(histories=0, simulations_judged=0, steps=0, element_checks=0, runs_with_errors=0, crosschecks=0, trace_not_judged=0,
